@@ -505,6 +505,7 @@ def run(ctx):
         judge(ctx, script, S, meta, obs, names)
     flush(ctx)
     transport_follows_options(ctx)
+    values_after_sends_and_private_defaults(ctx)
     constructor_order(ctx)
     clone_behaviour(ctx)
     direct_options_objects(ctx)
@@ -693,6 +694,119 @@ def constructor_order(ctx):
         if a != b:
             ctx.fail("the constructor does not apply its options like the same sequence of set_options calls", meta,
                      repr(a), repr(b))
+
+
+def values_after_sends_and_private_defaults(ctx):
+    """Reading an option returns the last value assigned - also after requests were really sent under it; the timeout
+    option is the time limit the transport's opener is given, to the fraction; and an option nobody assigned is a
+    client's own too: content put into one client's (or transport's) default headers / proxy / plugins value is not
+    seen by another client or transport."""
+    import urllib.request
+    import suds.transport.http
+    from harness.props import c15
+    rng = ctx.rng
+    srv = c15.Server()
+    try:
+        srv.httpd.plan = lambda h: {"status": 200, "body": b""}
+        w = wsdlkit.wsdl_doc('<xsd:element name="f"><xsd:complexType><xsd:sequence/></xsd:complexType></xsd:element>',
+                             "f", None, location=srv.url("/svc"), action="urn:act")
+
+        class Spy:
+            def __init__(self):
+                self.real = urllib.request.build_opener()
+                self.timeouts = []
+
+            def open(self, req, data=None, timeout=None):
+                self.timeouts.append(timeout)
+                return self.real.open(req, data, 5)
+
+        # ---- headers / timeout read back as assigned after real sends, and the opener gets the timeout assigned
+        for _ in range(ctx.pick(4, 40)):
+            t = suds.transport.http.HttpTransport() if rng.random() < 0.5 else suds.transport.http.HttpAuthenticated(
+                username="u", password="p")
+            spy = t.urlopener = Spy()
+            c = wsdlkit.client(w, transport=t)
+            hist = []
+            for step in range(rng.randint(2, 5)):
+                hv = rng.choice([None, {}, {"X-A": "1"}, {"X-A": "2", "X-B": "b"}, {"SOAPAction": '"urn:mine"'},
+                                 {"Content-Type": "application/soap+xml"}])
+                tv = rng.choice([None, 2.5, 0.25, 7, 90.5, 1.999])
+                given = None if hv is None else dict(hv)
+                via = rng.choice(["set_options", "options", "transport.options"])
+                if via == "set_options":
+                    c.set_options(headers=given, timeout=tv)
+                elif via == "options":
+                    c.options.headers, c.options.timeout = given, tv
+                else:
+                    c.options.transport.options.headers, c.options.transport.options.timeout = given, tv
+                hist.append([via, hv, tv])
+                del spy.timeouts[:]
+                del srv.httpd.seen[:]
+                ctx.case(("after-sends", common.canon(hist)), True)
+                try:
+                    for _n in range(rng.randint(1, 2)):
+                        c.service.f()
+                except Exception as e:
+                    ctx.fail("a request under the configured options failed", {"stream": "after-sends", "history": hist},
+                             repr(e), "a request")
+                    break
+                want_h, want_t = ({} if hv is None else hv), (90 if tv is None else tv)
+                got = [c.options.headers, c.options.timeout, t.options.headers, t.options.timeout,
+                       sorted(set(spy.timeouts)), given]
+                want = [want_h, want_t, want_h, want_t, [want_t], hv]
+                if got != want:
+                    ctx.fail("an option does not read back as assigned after requests were sent, or the opener was "
+                             "given another time limit than the timeout option", {"stream": "after-sends", "history": hist},
+                             got, want)
+                    break
+                sent = srv.httpd.seen[-1] if srv.httpd.seen else None
+                for k_, v_ in want_h.items():
+                    if sent is None or c15.hdr(sent, k_) != [v_]:
+                        ctx.fail("the headers option set on the client is not what its transport sends",
+                                 {"stream": "after-sends", "history": hist, "header": k_},
+                                 None if sent is None else c15.hdr(sent, k_), [v_])
+        # ---- nobody's assignment: defaults are private
+        for name, put in (("headers", lambda d: d.__setitem__("X-Leak", "1")), ("proxy", lambda d: d.__setitem__("ftp", "127.0.0.1:1")),
+                          ("plugins", lambda d: d.append(object()))):
+            for kind in ("client", "transport", "client-after-None"):
+                def make():
+                    if kind == "transport":
+                        return suds.transport.http.HttpAuthenticated()
+                    return wsdlkit.client(w, transport=suds.transport.http.HttpAuthenticated(username="u", password="p"))
+                if kind == "transport" and name == "plugins":
+                    continue
+                a = make()
+                if kind == "client-after-None":
+                    setattr(a.options, name, None)
+                ctx.case(("private-default", name, kind), True)
+                put(getattr(a.options, name))
+                if kind != "transport":
+                    a.service.f()                 # (the library's own use of the value)
+                b = make()
+                got = [len(getattr(b.options, name)), len(getattr(a.options, name))]
+                if kind != "transport":
+                    del srv.httpd.seen[:]
+                    b.service.f()
+                    got.append(c15.hdr(srv.httpd.seen[-1], "X-Leak"))
+                    want = [0, 1, []]
+                else:
+                    want = [0, 1]
+                if got != want:
+                    ctx.fail("content one client put into an option nobody assigned shows in another client's options",
+                             {"stream": "private-default", "option": name, "kind": kind}, got, want)
+        # the library's own sends leave an unassigned headers value empty, for this client and the next
+        a = wsdlkit.client(w, transport=suds.transport.http.HttpAuthenticated(username="u", password="p"))
+        a.service.f()
+        a.options.transport.open(suds.transport.Request(srv.url("/doc")))
+        b = wsdlkit.client(w, transport=suds.transport.http.HttpAuthenticated())
+        ctx.case(("private-default", "library"), True)
+        got = [a.options.headers, b.options.headers, b.options.transport.options.headers,
+               suds.transport.http.HttpTransport().options.headers]
+        if got != [{}, {}, {}, {}]:
+            ctx.fail("an option does not read back as assigned after requests were sent, or the opener was "
+                     "given another time limit than the timeout option", {"stream": "private-default", "kind": "library"}, got, [{}] * 4)
+    finally:
+        srv.close()
 
 
 def transport_follows_options(ctx):
